@@ -33,6 +33,7 @@ const (
 	whatACClient     = "Action Cache client and server back to back do not behave like the backend"
 	whatReadAfterAbort = "a compressed read of a present object did not return its suffix after earlier streams were torn down"
 	whatD11          = "closing a compressed client read while the server is silent did not return"
+	whatBigPut       = "the client's Put result differs from the backend's when the backend finishes before the upload was sent completely"
 	whatBigClose     = "closing a partially consumed compressed read did not return"
 	whatBigFront     = "a read through the frontend did not complete after its stream failed"
 	whatAC           = "ActionCache Get/Update do not round-trip the stored message"
